@@ -29,6 +29,15 @@ class ObsWorld:
         self.TE = TDict(self.Watch, self.Emitter)
         self.Entry = TTup(self.Event, self.Watch)
 
+    def is_(self, ex, l, r):
+        """`threading.current_thread() is <observer>`: true in a handler callback, false in an application thread"""
+        for a, b in ((l, r), (r, l)):
+            if isinstance(a, VOpaque) and a.kind == "current-thread" and isinstance(b, VObj) and b.cls == "BaseObserver":
+                if "on_own_thread" not in ex.ghost:
+                    ex.ghost["on_own_thread"] = VBool(ex.fresh_term(z3.BoolSort(), "caller_is_the_observer_thread"))
+                return ex.ghost["on_own_thread"].t
+        return NotImplemented
+
     # ---------------- emitter thread contracts (E7)
     def m_estart(self, ex, r, args, kw, node):
         """BaseThread.start of an emitter: runs on_thread_start (may raise, e.g. OSError from inotify) then starts"""
@@ -157,6 +166,9 @@ class ObsSpec(FnSpec):
             "BaseObserver.is_alive": lambda ex, recv, a, k, n: ex.ghost["alive"],
             "ObservedWatch": self.h_watch_ctor,
             "EventDispatcher.stop_event": VOpaque("stop_event"),
+            # the API is called from application threads AND from handler callbacks (= the observer's own thread): which
+            # thread runs the call is unknown - one boolean per path
+            "threading.current_thread": lambda ex, a, k, n: VOpaque("current-thread"),
         }
 
     def globals(self):
